@@ -95,7 +95,9 @@ func init() {
 		iniSupply := c.Deviate(4) // 3: as 1, read in as-defaults mode
 		// the same parser has parsed another line before: 1 = [a -q --atwo v] (command a with both of its options), 2 = [c -t];
 		// the options given there count as supplied for the rest of the parser's life, nothing else of that parse may matter
-		used := c.Deviate(3)
+		// 3 = the parser has parsed the empty line once (reaching the required check), then the program inverts the Required field of
+		//     every option through the public API: the marks in force are the complement of the declared ones
+		used := c.Deviate(4)
 		api := c.Bool()
 		layout, onB := 0, false
 		if lay >= 1 && lay <= 8 {
@@ -122,10 +124,21 @@ func init() {
 			cache[key] = d
 		}
 		c.Describe(func() interface{} {
-			return map[string]interface{}{"tree": describeTree(d.Top), "api_path": api, "argv": argv, "earlier_parse_on_same_parser": [][]string{nil, {"a", "-q", "--atwo", "v"}, {"c", "-t"}}[used],
+			return map[string]interface{}{"tree": describeTree(d.Top), "api_path": api, "argv": argv, "earlier_parse_on_same_parser": [][]string{nil, {"a", "-q", "--atwo", "v"}, {"c", "-t"}, {}}[used], "required_marks_inverted_through_the_API_after_that_parse": used == 3,
 				"ini_file_supplying_P2_and_A2": []string{"not read", "read before ParseArgs", "read by the default of a func(string) option declared last on the parser", "read before ParseArgs in as-defaults mode"}[iniSupply]}
 		})
 		cfg := &ref.Config{D: d}
+		if used == 3 {
+			// the model reads the declaration whose marks are the complement
+			k2 := fmt.Sprintf("m%d/l%d/%v/%v", 63^mask, lay, cmdReq, iniSupply == 2)
+			d2 := cache[k2]
+			if d2 == nil {
+				d2 = c06Decl(63^mask, layout, onB, cmdReq, iniSupply == 2)
+				cache[k2] = d2
+			}
+			cfg = &ref.Config{D: d2}
+			c.Hit("marks-inverted-through-the-API")
+		}
 		if iniSupply != 0 {
 			cfg.Supplied = map[*decl.Opt]bool{}
 			for _, o := range d.EveryOpt() {
@@ -135,7 +148,7 @@ func init() {
 			}
 			c.Hit("supplied-by-ini")
 		}
-		if used != 0 {
+		if used == 1 || used == 2 {
 			cfg.Supplied = map[*decl.Opt]bool{}
 			for _, o := range d.EveryOpt() {
 				if (used == 1 && (o.Field == "A1" || o.Field == "A2")) || (used == 2 && o.Field == "C1") {
@@ -178,7 +191,21 @@ func init() {
 				}
 			}()
 		}
-		if used != 0 {
+		if used == 3 {
+			if wr, _ := earlierParse(b, &ref.Config{D: d}, nil); wr.Panic != nil {
+				c.Fail("panic|"+wr.PanicSite, fmt.Sprint("earlier parse of the empty line: ", wr.Panic))
+				return
+			}
+			for _, o := range d.EveryOpt() {
+				fo := b.Option(o)
+				if fo == nil {
+					c.Fail("harness-option-not-found", o.ID)
+					return
+				}
+				fo.Required = !fo.Required
+			}
+		}
+		if used == 1 || used == 2 {
 			w := [][]string{nil, {"a", "-q", "--atwo", "v"}, {"c", "-t"}}[used]
 			wr, _ := earlierParse(b, &ref.Config{D: d}, w)
 			if wr.Panic != nil {
@@ -244,10 +271,10 @@ func init() {
 		DevBound:   func(bool) int { return 1 },
 		Rule: "tree parser -> a -> b, sibling c, 6 options (c's option re-declares the long name of one of the parser's); all 64 subsets marked required (spellings yes/true/1, the others unmarked or marked false/no/0) x positional layouts " +
 			"{none, 3 scalars struct-required (up to three missing at once), per-field required, rest required 2, 1-2, 0-1, optional, two scalars made required by setting Command.ArgsRequired in the program, a rest field whose maximum of 1 the program sets through Arg.RequiredMaximum (no minimum)} on b or on the parser x {tags, API} x every sequence of <= 3 (quick) / <= 4 (thorough) units " +
-			"supplying options by short, long=, separate and cluster spellings, command words, plain words, the empty word and the -- terminator (PassDoubleDash set; words after it still count for the positional constraints); one more deviation makes subcommands mandatory at both inner levels (a missing required option is still ErrRequired, not ErrCommandRequired); option types bool, string, func(), []bool; one more deviation has an INI file supply two of the options, read before the parse (plain or as defaults) or by the default of a callback option declared after them; one more deviation re-uses a parser that has already parsed [a -q --atwo v] or [c -t] (the options given there stay supplied, nothing else of that parse matters); oracle = CLM missing set: ErrRequired iff something on the active chain is missing, " +
+			"supplying options by short, long=, separate and cluster spellings, command words, plain words, the empty word and the -- terminator (PassDoubleDash set; words after it still count for the positional constraints); one more deviation makes subcommands mandatory at both inner levels (a missing required option is still ErrRequired, not ErrCommandRequired); option types bool, string, func(), []bool; one more deviation has an INI file supply two of the options, read before the parse (plain or as defaults) or by the default of a callback option declared after them; one more deviation re-uses a parser that has already parsed [a -q --atwo v] or [c -t] (the options given there stay supplied, nothing else of that parse matters), or one whose Required fields the program inverts through the public API after a first parse of the empty line; oracle = CLM missing set: ErrRequired iff something on the active chain is missing, " +
 			"message names every missing item and none that is supplied or belongs to an unselected command; nothing executed",
 		Assumptions:  []string{"required options carry no default/env here (whether a default supplies a required option is not settled by the statement)", "markers are long option names / positional names chosen so that none is a substring of another"},
-		RequiredHits: []string{"clean", "required-fault|options", "required-fault|positionals", "supplied-by-ini", "parser-used-before"},
+		RequiredHits: []string{"clean", "required-fault|options", "required-fault|positionals", "supplied-by-ini", "parser-used-before", "marks-inverted-through-the-API"},
 		Bound:        [2]string{"unit sequences <= 3", "unit sequences <= 4"},
 		BudgetS:      [2]int{170, 1500},
 	})
